@@ -78,6 +78,7 @@ import (
 	"github.com/foxcpp/maddy/framework/exterrors"
 	"github.com/foxcpp/maddy/framework/log"
 	"github.com/foxcpp/maddy/framework/module"
+	"github.com/foxcpp/maddy/internal/check"
 	"github.com/foxcpp/maddy/internal/modify"
 	"github.com/foxcpp/maddy/internal/verifshim/vh"
 	"golang.org/x/net/idna"
@@ -221,6 +222,15 @@ func c06DefaultActs() *c06Acts {
 // result builds the raw CheckResult and lets the REAL FailAction.Apply merge the action in; the
 // FailAction is what the REAL directive parser made of the action's directive (acts; nil: default spelling).
 func (v c06V) result(check int, acts *c06Acts) module.CheckResult {
+	raw := v.rawResult(check)
+	if acts == nil {
+		acts = c06DefaultActs()
+	}
+	return acts.a[strings.IndexByte(c06Slots, v.act)].Apply(raw)
+}
+
+// rawResult: what the check's own code finds (before the check's action is applied to it).
+func (v c06V) rawResult(check int) module.CheckResult {
 	var raw module.CheckResult
 	switch v.raw {
 	case '1':
@@ -236,10 +246,7 @@ func (v c06V) result(check int, acts *c06Acts) module.CheckResult {
 		raw.Reason = &c06Err{check}
 		raw.Reject = true
 	}
-	if acts == nil {
-		acts = c06DefaultActs()
-	}
-	return acts.a[strings.IndexByte(c06Slots, v.act)].Apply(raw)
+	return raw
 }
 
 // proper maps a verdict to the four verdicts of the property: n i q r ; "?" for results the
@@ -289,22 +296,62 @@ type c06Block struct {
 	checks  []int
 	targets []int
 	nomod   bool // the block has no `modify` directive: its modifier group is empty
+	// flaky (round 10, flag f): the block lists one more check whose backend is down - its
+	// CheckStateForMsg fails for every message.  It stands right after the block's leading checks
+	// that are also global / source checks (c06FlakyPos), i.e. every check before it has its state.
+	flaky bool
 }
 
 func (b c06Block) spec() string {
 	s := c06Ids(b.checks) + "/" + c06Ids(b.targets)
-	if b.nomod {
+	switch {
+	case b.nomod && b.flaky:
+		s += "/nf"
+	case b.nomod:
 		s += "/n"
+	case b.flaky:
+		s += "/f"
 	}
 	return s
 }
 
 func c06ParseBlock(s string) c06Block {
 	p := strings.Split(s, "/")
-	if len(p) < 2 || len(p) > 3 || (len(p) == 3 && p[2] != "n") {
+	if len(p) < 2 || len(p) > 3 || (len(p) == 3 && p[2] != "n" && p[2] != "f" && p[2] != "nf") {
 		panic("bad block " + s)
 	}
-	return c06Block{c06ParseIds(p[0]), c06ParseIds(p[1]), len(p) == 3}
+	return c06Block{checks: c06ParseIds(p[0]), targets: c06ParseIds(p[1]), nomod: len(p) == 3 && p[2][0] == 'n', flaky: len(p) == 3 && strings.HasSuffix(p[2], "f")}
+}
+
+// c06FlakyPos: where the check that cannot create its state stands in the check list of a flaky
+// block: after the longest prefix of checks that are global or source checks too.
+func c06FlakyPos(global, source, checks []int) int {
+	p := 0
+	for p < len(checks) && (c06Has(global, checks[p]) || c06Has(source, checks[p])) {
+		p++
+	}
+	return p
+}
+
+// c06FlakyCheck: CheckStateForMsg fails (temporary error, as a check with an unreachable backend).
+type c06FlakyCheck struct {
+	mu    sync.Mutex
+	asked int
+}
+type c06InitErr struct{}
+
+func (*c06InitErr) Error() string {
+	return "scripted failure of CheckStateForMsg: backend is not available"
+}
+
+func (*c06FlakyCheck) Init(*config.Map) error { return nil }
+func (*c06FlakyCheck) Name() string           { return "verif_flaky" }
+func (*c06FlakyCheck) InstanceName() string   { return "verif_flaky" }
+func (f *c06FlakyCheck) CheckStateForMsg(ctx context.Context, m *module.MsgMetadata) (module.CheckState, error) {
+	f.mu.Lock()
+	f.asked++
+	f.mu.Unlock()
+	return nil, &exterrors.SMTPError{Code: 451, EnhancedCode: exterrors.EnhancedCode{4, 7, 0}, Message: "try again later", Err: &c06InitErr{}}
 }
 
 // c06Rcpt: one RCPT command. sp: how the client wrote the address - 0 as the pipeline gets it,
@@ -992,16 +1039,18 @@ type c06Call struct {
 }
 
 type c06Rec struct {
-	mu       sync.Mutex
-	cmd      int
-	calls    []*c06Call
-	inst     map[int]int // check -> instances created
-	instCmd  map[[2]int]int
-	seq      int
-	inverted int
-	lateCall int      // calls on a state object after its Close
-	foreign  []string // calls on a state object of this message while a command of ANOTHER message was running
-	wrongArg []string // a state object of this message was shown the sender / a recipient / the body of another message
+	mu        sync.Mutex
+	cmd       int
+	calls     []*c06Call
+	inst      map[int]int // check -> instances created
+	instCmd   map[[2]int]int
+	seq       int
+	inverted  int
+	lateCall  int      // calls on a state object after its Close
+	foreign   []string // calls on a state object of this message while a command of ANOTHER message was running
+	wrongArg  []string // a state object of this message was shown the sender / a recipient / the body of another message
+	slLate    int      // calls on the state object of a stateless check after its Close
+	wrongMeta []string // a stateless check asked on behalf of this message was handed the meta-data of another one
 }
 
 func c06NewRec() *c06Rec { return &c06Rec{inst: map[int]int{}, instCmd: map[[2]int]int{}} }
@@ -1050,6 +1099,121 @@ func (sh *c06Shared) setCur(t *c06TxCtx) { sh.mu.Lock(); sh.cur = t; sh.mu.Unloc
 type c06Check struct {
 	id int
 	sh *c06Shared
+	// inner (round 10): the check is a REAL internal/check stateless check (check.RegisterStatelessCheck,
+	// module verif_c06_sl<id>): its state objects are made, asked and closed through this wrapper, which
+	// only keeps the books; the verdict is what the registered functions say about the message whose
+	// meta-data the stateless state hands them (StatelessCheckContext.MsgMeta).
+	inner module.Check
+}
+
+// ---- round 10: checks made with check.RegisterStatelessCheck --------------------------------
+//
+// c06SlSh: the pipeline the stateless checks currently work for (cases run one after the other).
+// c06SlSeen[k]: the message the functions of stateless check k were last asked about (the
+// wrapper reads it right after the call: the commands of a case run one at a time and a state
+// object is asked once per runAndMergeResults, so there is one call per check in flight).
+var (
+	c06SlMu   sync.Mutex
+	c06SlSh   *c06Shared
+	c06SlSeen = map[int]*c06TxCtx{}
+	// c06SlOwn[k]: stateless check k is configured with a fail_action of its own (every verdict of
+	// the case that carries a reason names that one action): its functions return what they find,
+	// statelessCheckState applies the configured action (otherwise: action ignore, the functions
+	// return results the verdict's action was already applied to)
+	c06SlOwn = map[int]bool{}
+)
+
+const c06SlMax = 12
+
+func c06SlName(k int) string { return "verif_c06_sl" + strconv.Itoa(k) }
+
+// c06SlEval: what a stateless check function does - it decides about the message it is asked
+// about, i.e. the one whose meta-data it is given.
+func c06SlEval(k int, meta *module.MsgMetadata, stage string) module.CheckResult {
+	c06SlMu.Lock()
+	sh := c06SlSh
+	c06SlMu.Unlock()
+	if sh == nil || meta == nil {
+		return module.CheckResult{}
+	}
+	tx := sh.lookup(meta.ID)
+	c06SlMu.Lock()
+	c06SlSeen[k] = tx
+	own := c06SlOwn[k]
+	c06SlMu.Unlock()
+	if own {
+		return tx.script(k).at(stage).rawResult(k)
+	}
+	return tx.script(k).at(stage).result(k, tx.acts)
+}
+
+func c06SlRegister() {
+	for k := 0; k < c06SlMax; k++ {
+		k := k
+		// fail action "ignore": FailAction.Apply leaves the flags of the result alone, the functions
+		// return results that already went through the (real) action of the verdict
+		check.RegisterStatelessCheck(c06SlName(k), modconfig.FailAction{},
+			func(ctx check.StatelessCheckContext) module.CheckResult { return c06SlEval(k, ctx.MsgMeta, "c") },
+			func(ctx check.StatelessCheckContext, from string) module.CheckResult {
+				return c06SlEval(k, ctx.MsgMeta, "s")
+			},
+			func(ctx check.StatelessCheckContext, to string) module.CheckResult {
+				return c06SlEval(k, ctx.MsgMeta, "r"+strings.TrimPrefix(strings.SplitN(to, "@", 2)[0], "u"))
+			},
+			func(ctx check.StatelessCheckContext, h textproto.Header, b buffer.Buffer) module.CheckResult {
+				return c06SlEval(k, ctx.MsgMeta, "b")
+			})
+	}
+}
+
+// c06SlNew: a fresh instance of stateless check k (every pipeline gets its own, as every
+// configuration block does).
+func c06SlNew(k int, action string) module.Check {
+	mod, err := module.Get(c06SlName(k))(c06SlName(k), "", nil, nil)
+	if err != nil {
+		panic(err)
+	}
+	node := config.Node{}
+	if action != "" {
+		node.Children = []config.Node{{Name: "fail_action", Args: []string{action}}}
+	}
+	if err := mod.Init(config.NewMap(nil, node)); err != nil {
+		panic(err)
+	}
+	c06SlMu.Lock()
+	c06SlOwn[k] = action != ""
+	c06SlMu.Unlock()
+	return mod.(module.Check)
+}
+
+// c06SlAction: the one action every reason-carrying verdict of check k names in the transactions
+// of the op ("" if they name several, or the actions are custom directives).
+func c06SlAction(m *c06Multi, k int) string {
+	if m.dirs != nil {
+		return ""
+	}
+	acts := map[byte]bool{}
+	see := func(v c06V) {
+		if v.raw == '1' || v.raw == '2' || v.raw == '5' {
+			acts[v.act] = true
+		}
+	}
+	for _, c := range m.txs {
+		sc := c.scripts[k]
+		see(sc.conn)
+		see(sc.sender)
+		see(sc.body)
+		for _, v := range sc.rcpt {
+			see(v)
+		}
+	}
+	if len(acts) != 1 {
+		return ""
+	}
+	for a := range acts {
+		return c06Words[strings.IndexByte(c06Slots, a)]
+	}
+	return ""
 }
 
 func c06Body(id string) string { return "hello " + id + "\r\n" }
@@ -1076,14 +1240,15 @@ func (c *c06Check) Init(cfg *config.Map) error {
 	}
 	return nil
 }
-func (c *c06Check) Name() string { return "verif_check" }
-func (c *c06Check) InstanceName() string   { return "verif_check" + strconv.Itoa(c.id) }
+func (c *c06Check) Name() string         { return "verif_check" }
+func (c *c06Check) InstanceName() string { return "verif_check" + strconv.Itoa(c.id) }
 
 type c06State struct {
 	c      *c06Check
 	tx     *c06TxCtx
 	inst   int
 	closed bool
+	inner  module.CheckState // the state object of the real stateless check (c.inner != nil)
 }
 
 func (c *c06Check) CheckStateForMsg(ctx context.Context, msgMeta *module.MsgMetadata) (module.CheckState, error) {
@@ -1094,7 +1259,15 @@ func (c *c06Check) CheckStateForMsg(ctx context.Context, msgMeta *module.MsgMeta
 	inst := rec.inst[c.id]
 	rec.inst[c.id] = inst + 1
 	rec.instCmd[[2]int{c.id, inst}] = rec.cmd
-	return &c06State{c: c, tx: tx, inst: inst}, nil
+	st := &c06State{c: c, tx: tx, inst: inst}
+	if c.inner != nil {
+		in, err := c.inner.CheckStateForMsg(ctx, msgMeta)
+		if err != nil {
+			return nil, err
+		}
+		st.inner = in
+	}
+	return st, nil
 }
 
 func (tx *c06TxCtx) script(check int) *c06Script {
@@ -1124,7 +1297,7 @@ func c06EffOf(r module.CheckResult) string {
 }
 
 // do: one Check* call. arg: what the state object was shown (sender, recipient address, body).
-func (s *c06State) do(stage string, di int, arg string) module.CheckResult {
+func (s *c06State) do(stage string, di int, arg string, via ...func() module.CheckResult) module.CheckResult {
 	rec := s.tx.rec
 	s.c.sh.mu.Lock()
 	cur := s.c.sh.cur
@@ -1135,6 +1308,9 @@ func (s *c06State) do(stage string, di int, arg string) module.CheckResult {
 	started := len(rec.calls)
 	if s.closed {
 		rec.lateCall++
+		if s.inner != nil {
+			rec.slLate++
+		}
 	}
 	if cur != nil && cur != s.tx && s.c.sh.any == nil {
 		rec.foreign = append(rec.foreign, fmt.Sprintf("check %d stage %s of message %s during a command of message %s", s.c.id, stage, s.tx.id, cur.id))
@@ -1161,7 +1337,25 @@ func (s *c06State) do(stage string, di int, arg string) module.CheckResult {
 	if d := dl[di]; d > 0 {
 		time.Sleep(time.Duration(d) * c06DelayUnit)
 	}
-	res := s.tx.script(s.c.id).at(stage).result(s.c.id, s.tx.acts)
+	var res module.CheckResult
+	if s.inner != nil && len(via) == 1 {
+		// the real stateless state object decides (with the meta-data IT holds)
+		res = via[0]()
+		c06SlMu.Lock()
+		seen := c06SlSeen[s.c.id]
+		c06SlMu.Unlock()
+		if seen != s.tx {
+			who := "nobody"
+			if seen != nil {
+				who = seen.id
+			}
+			rec.mu.Lock()
+			rec.wrongMeta = append(rec.wrongMeta, fmt.Sprintf("stateless check %d, stage %s of message %s: the check function was given the meta-data of message %s", s.c.id, stage, s.tx.id, who))
+			rec.mu.Unlock()
+		}
+	} else {
+		res = s.tx.script(s.c.id).at(stage).result(s.c.id, s.tx.acts)
+	}
 	rec.mu.Lock()
 	call.eff = c06EffOf(res)
 	rec.seq++
@@ -1177,14 +1371,16 @@ func (s *c06State) do(stage string, di int, arg string) module.CheckResult {
 	return res
 }
 
-func (s *c06State) CheckConnection(ctx context.Context) module.CheckResult { return s.do("c", 0, "") }
+func (s *c06State) CheckConnection(ctx context.Context) module.CheckResult {
+	return s.do("c", 0, "", func() module.CheckResult { return s.inner.CheckConnection(ctx) })
+}
 func (s *c06State) CheckSender(ctx context.Context, from string) module.CheckResult {
-	return s.do("s", 1, from)
+	return s.do("s", 1, from, func() module.CheckResult { return s.inner.CheckSender(ctx, from) })
 }
 func (s *c06State) CheckRcpt(ctx context.Context, to string) module.CheckResult {
 	// u<id>@b<blk>.example
 	id := strings.TrimPrefix(strings.SplitN(to, "@", 2)[0], "u")
-	return s.do("r"+id, 2, to)
+	return s.do("r"+id, 2, to, func() module.CheckResult { return s.inner.CheckRcpt(ctx, to) })
 }
 func (s *c06State) CheckBody(ctx context.Context, h textproto.Header, b buffer.Buffer) module.CheckResult {
 	shown := "?"
@@ -1194,12 +1390,15 @@ func (s *c06State) CheckBody(ctx context.Context, h textproto.Header, b buffer.B
 		}
 		rd.Close()
 	}
-	return s.do("b", 3, shown)
+	return s.do("b", 3, shown, func() module.CheckResult { return s.inner.CheckBody(ctx, h, b) })
 }
 func (s *c06State) Close() error {
 	s.tx.rec.mu.Lock()
 	s.closed = true
 	s.tx.rec.mu.Unlock()
+	if s.inner != nil {
+		return s.inner.Close()
+	}
 	return nil
 }
 
@@ -1525,6 +1724,11 @@ func c06Why(err error) string {
 	if errors.As(err, &me) {
 		return "mod"
 	}
+	// a scripted fault of a check's CheckStateForMsg: like a modifier's failure not a verdict
+	var ie *c06InitErr
+	if errors.As(err, &ie) {
+		return "mod"
+	}
 	var te c06TgtErr
 	if errors.As(err, &te) {
 		return "tgt"
@@ -1538,6 +1742,7 @@ func c06Why(err error) string {
 
 // c06Pipe is one real MsgPipeline built from a case.
 type c06Pipe struct {
+	flaky    *c06FlakyCheck // the check of the flaky blocks
 	p        *MsgPipeline
 	sh       *c06Shared
 	ctx      *c06TxCtx // the one message of a run / nest op
@@ -1598,7 +1803,7 @@ func (r *c06Rec) setCmd(k int) { r.mu.Lock(); r.cmd = k; r.mu.Unlock() }
 func c06Build(c *c06Case, routes map[string]int, nested module.DeliveryTarget, ctx *c06TxCtx) *c06Pipe {
 	rec := ctx.rec
 	sh := &c06Shared{txs: map[string]*c06TxCtx{ctx.id: ctx}, cur: ctx}
-	pp := &c06Pipe{rec: rec, ctx: ctx, sh: sh, modRec: &c06ModRec{}}
+	pp := &c06Pipe{rec: rec, ctx: ctx, sh: sh, modRec: &c06ModRec{}, flaky: &c06FlakyCheck{}}
 	mods := func(scope string, blk int) modify.Group {
 		// a scope without a `modify` directive: the empty group
 		if (scope == "g" && c.nomodG) || (scope == "s" && c.nomodS) || (scope == "b" && c.blocks[blk].nomod) {
@@ -1643,6 +1848,12 @@ func c06Build(c *c06Case, routes map[string]int, nested module.DeliveryTarget, c
 	blocks := make([]*rcptBlock, len(c.blocks))
 	for i, b := range c.blocks {
 		rb := &rcptBlock{checks: pick(b.checks), modifiers: mods("b", i)}
+		if b.flaky {
+			p := c06FlakyPos(c.global, c.source, b.checks)
+			l := append([]module.Check(nil), rb.checks[:p]...)
+			l = append(l, pp.flaky)
+			rb.checks = append(l, rb.checks[p:]...)
+		}
 		for _, t := range b.targets {
 			if c.tgts[t] == "px" {
 				rb.targets = append(rb.targets, nested)
@@ -2312,6 +2523,14 @@ func c06Monitor(out *vh.Out, op string, in *c06Info) {
 		}
 	}
 
+	// ---- round 10: a recipient handled in a block is seen by every check of the block - a check
+	// that cannot even create its state object for the message has seen nothing of it
+	for k, r := range c.rcpts {
+		if k < len(in.rcptRef) && !in.rcptRef[k] && r.blk < len(c.blocks) && c.blocks[r.blk].flaky {
+			out.Violation("C06/stage-not-seen", op, fmt.Sprintf("RCPT %d (recipient %d) was accepted into destination block %d although a check of that block could not be started for the message (CheckStateForMsg failed): the check saw nothing of the message", k+1, r.id, r.blk))
+		}
+	}
+
 	// ---- verdicts enforced (oracle from the script, proper verdicts only)
 	if !odd {
 		mustStart := false
@@ -2455,7 +2674,7 @@ func c06Monitor(out *vh.Out, op string, in *c06Info) {
 		out.Violation("C06/refused-without-reject", op, "MAIL failed with a modifier's error, no modifier is scripted to fail on the sender")
 	}
 	for k := range in.rcptRef {
-		if in.rcptRef[k] && in.rcptWhy[k] == "mod" && !c.mf.rcptFault(c.rcpts[k].id) {
+		if in.rcptRef[k] && in.rcptWhy[k] == "mod" && !c.mf.rcptFault(c.rcpts[k].id) && !c.blocks[c.rcpts[k].blk].flaky {
 			out.Violation("C06/refused-without-reject", op, fmt.Sprintf("RCPT %d failed with a modifier's error, no modifier is scripted to fail on recipient %d", k+1, c.rcpts[k].id))
 		}
 	}
@@ -2623,6 +2842,11 @@ func c06Monitor(out *vh.Out, op string, in *c06Info) {
 	for i, w := range in.rec.wrongArg {
 		if i < 3 {
 			out.Violation("C06/foreign-message-shown", op, "a check was not shown the stage of ITS message: "+w)
+		}
+	}
+	for i, w := range in.rec.wrongMeta {
+		if i < 3 {
+			out.Violation("C06/foreign-metadata-shown", op, "a check decided about a stage of one message with the meta-data of another one: "+w)
 		}
 	}
 	if in.rec.lateCall > 0 {
@@ -3117,6 +3341,7 @@ type c06Multi struct {
 	sched  []int
 	txs    []*c06Case
 	dirs   *c06Dirs // the `<x>_action` directives written into every check's configuration block (nil: none, the defaults apply)
+	sl     []int    // round 10: the checks that are REAL stateless checks (op token sl=)
 }
 
 func c06SrcDomain(m *c06Multi, k int) (dom, idn string) {
@@ -3153,6 +3378,9 @@ func (m *c06Multi) op() string {
 		sc.WriteByte(byte('0' + i))
 	}
 	f := []string{"C06", "multi", m.dmarc, c06Ids(m.global), strings.Join(m.tgts, ","), strings.Join(ss, "_"), sc.String()}
+	if len(m.sl) > 0 {
+		f = append(f, "sl="+c06Ids(m.sl))
+	}
 	if m.dirs != nil {
 		f = append(f, m.dirs.String())
 	}
@@ -3175,6 +3403,19 @@ func c06ParseMulti(op string) (m *c06Multi, err error) {
 	}()
 	t := strings.Fields(op)
 	var dirs *c06Dirs
+	var sl []int
+	if len(t) > 8 && strings.HasPrefix(t[7], "sl=") {
+		sl = c06ParseIds(t[7][3:])
+		if len(sl) == 0 {
+			return nil, errors.New("empty sl= token")
+		}
+		for i, k := range sl {
+			if k < 0 || k >= c06SlMax || (i > 0 && sl[i-1] >= k) {
+				return nil, errors.New("bad sl= token")
+			}
+		}
+		t = append(append([]string(nil), t[:7]...), t[8:]...)
+	}
 	if len(t) > 8 && strings.HasPrefix(t[7], "d=") {
 		if dirs, err = c06ParseDirs(t[7]); err != nil {
 			return nil, err
@@ -3184,7 +3425,7 @@ func c06ParseMulti(op string) (m *c06Multi, err error) {
 	if len(t) < 13 || t[0] != "C06" || t[1] != "multi" || (len(t)-7)%6 != 0 {
 		return nil, errors.New("not a C06 multi op")
 	}
-	m = &c06Multi{dmarc: t[2], global: c06ParseIds(t[3]), tgts: strings.Split(t[4], ","), dirs: dirs}
+	m = &c06Multi{dmarc: t[2], global: c06ParseIds(t[3]), tgts: strings.Split(t[4], ","), dirs: dirs, sl: sl}
 	for _, k := range m.tgts {
 		if k != "an" && k != "ar" && k != "pn" && k != "pr" {
 			return nil, errors.New("multi: target kind " + k)
@@ -3238,6 +3479,11 @@ func c06ParseMulti(op string) (m *c06Multi, err error) {
 			return nil, errors.New("schedule names a transaction that does not exist")
 		}
 	}
+	for _, k := range m.sl {
+		if k >= len(m.txs[0].scripts) {
+			return nil, errors.New("sl= names a check that does not exist")
+		}
+	}
 	m.fill()
 	return m, nil
 }
@@ -3258,6 +3504,13 @@ func init() {
 			return nil, errors.New("verif_c06: no such check")
 		}
 		return c06Cur.checks[id].(*c06Check), nil
+	})
+	c06SlRegister()
+	module.Register("check.verif_c06_flaky", func(_, _ string, _, _ []string) (module.Module, error) {
+		if c06Cur == nil {
+			return nil, errors.New("verif_c06_flaky: no pipeline under construction")
+		}
+		return c06Cur.flaky, nil
 	})
 	module.Register("check.verif_c06_auth", func(_, _ string, _, _ []string) (module.Module, error) {
 		return c06AuthCheck{}, nil
@@ -3288,8 +3541,14 @@ func c06ConfigText(m *c06Multi) string {
 		}
 		return strings.Join(p, " ")
 	}
-	checks := func(ind string, ids []int) {
-		for _, id := range ids {
+	checks := func(ind string, ids []int, flakyAt ...int) {
+		for pos, id := range append(append([]int(nil), ids...), -1) {
+			if len(flakyAt) == 1 && flakyAt[0] == pos {
+				fmt.Fprintf(&b, "%scheck {\n%s    verif_c06_flaky\n%s}\n", ind, ind, ind)
+			}
+			if id < 0 {
+				break
+			}
 			if m.dirs == nil {
 				fmt.Fprintf(&b, "%scheck {\n%s    verif_c06 %d\n%s}\n", ind, ind, id, ind)
 				continue
@@ -3321,7 +3580,11 @@ func c06ConfigText(m *c06Multi) string {
 		}
 		for i, blk := range s.blocks {
 			fmt.Fprintf(&b, "    destination b%d.example {\n", i)
-			checks("        ", blk.checks)
+			if blk.flaky {
+				checks("        ", blk.checks, c06FlakyPos(m.global, s.checks, blk.checks))
+			} else {
+				checks("        ", blk.checks)
+			}
 			if !blk.nomod {
 				fmt.Fprintf(&b, "        modify {\n            verif_c06_mod b %d\n        }\n", i)
 			}
@@ -3341,10 +3604,17 @@ func c06BuildParsed(m *c06Multi, ctxs []*c06TxCtx) (*c06Pipe, error) {
 	for _, ctx := range ctxs {
 		sh.txs[ctx.id] = ctx
 	}
-	pp := &c06Pipe{sh: sh, modRec: &c06ModRec{}}
+	pp := &c06Pipe{sh: sh, modRec: &c06ModRec{}, flaky: &c06FlakyCheck{}}
 	for i := range m.txs[0].scripts {
-		pp.checks = append(pp.checks, &c06Check{id: i, sh: sh})
+		ck := &c06Check{id: i, sh: sh}
+		if c06Has(m.sl, i) {
+			ck.inner = c06SlNew(i, c06SlAction(m, i))
+		}
+		pp.checks = append(pp.checks, ck)
 	}
+	c06SlMu.Lock()
+	c06SlSh = sh
+	c06SlMu.Unlock()
 	for i, k := range m.tgts {
 		pp.tgts = append(pp.tgts, &c06Target{id: i, partial: k[0] == 'p', refuseQ: k[1] == 'r'})
 	}
@@ -3539,6 +3809,62 @@ func c06Interleave(r *vh.Rng, m *c06Multi) []int {
 
 func c06MultiStats(out *vh.Out, m *c06Multi, res *c06MultiRes) {
 	out.Stat("multi")
+	out.Stat(fmt.Sprintf("multi.stateless-checks.%d", len(m.sl)))
+	for _, k := range m.sl {
+		if a := c06SlAction(m, k); a != "" {
+			out.Stat("multi.stateless-check.own-fail_action." + a)
+		}
+	}
+	nFlaky := 0
+	for _, sb := range m.srcs {
+		for _, bl := range sb.blocks {
+			if bl.flaky {
+				nFlaky++
+			}
+		}
+	}
+	if nFlaky > 0 {
+		out.Stat("multi.flaky-block")
+		res.pp.flaky.mu.Lock()
+		if res.pp.flaky.asked > 0 {
+			out.Stat("multi.flaky-block.CheckStateForMsg-failed")
+		}
+		res.pp.flaky.mu.Unlock()
+	}
+	if len(m.sl) > 0 {
+		ref := 0 // stateless checks referenced in more than one scope
+		for _, k := range m.sl {
+			n := 0
+			if c06Has(m.global, k) {
+				n++
+			}
+			for _, sb := range m.srcs {
+				if c06Has(sb.checks, k) {
+					n++
+				}
+				for _, b := range sb.blocks {
+					if c06Has(b.checks, k) {
+						n++
+					}
+				}
+			}
+			if n > 1 {
+				ref++
+			}
+		}
+		if ref > 0 {
+			out.Stat("multi.stateless-check.in-several-scopes")
+		}
+		late := false
+		for _, in := range res.infos {
+			if in.rec.slLate > 0 {
+				late = true
+			}
+		}
+		if late {
+			out.Stat("multi.stateless-check.state-asked-after-its-Close")
+		}
+	}
 	out.Stat(fmt.Sprintf("multi.txs.%d", len(m.txs)))
 	out.Stat(fmt.Sprintf("multi.sources.%d", len(m.srcs)))
 	p := res.pp.p
@@ -4075,7 +4401,7 @@ func c06GenMulti(r *vh.Rng, big bool) *c06Multi {
 		src := c06Src{checks: scope(0, 1, 1, 2, 3, 3, 3), nomod: r.Chance(25)}
 		nB := []int{1, 2, 2, 3}[r.Intn(4)]
 		for b := 0; b < nB; b++ {
-			blk := c06Block{checks: scope(0, 1, 1, 1, 2, 3), nomod: r.Chance(45)}
+			blk := c06Block{checks: scope(0, 1, 1, 1, 2, 3), nomod: r.Chance(45), flaky: r.Chance(4)}
 			n := 1
 			if r.Chance(30) {
 				n = 2
@@ -4177,6 +4503,31 @@ func c06GenMulti(r *vh.Rng, big bool) *c06Multi {
 	if r.Chance(10) {
 		m.dirs = c06GenDirs(r)
 	}
+	if m.dirs != nil {
+		// directives nobody reads refuse nothing: a pipeline without any `check` directive
+		ref := len(m.global)
+		for _, sb := range m.srcs {
+			ref += len(sb.checks)
+			for _, bl := range sb.blocks {
+				ref += len(bl.checks)
+			}
+		}
+		if ref == 0 {
+			m.dirs = nil
+		}
+	}
+	// round 10: some of the checks are real stateless checks
+	var prefix []int
+	if r.Chance(40) {
+		for k := 0; k < nC; k++ {
+			if r.Chance(45) {
+				m.sl = append(m.sl, k)
+			}
+		}
+	}
+	if m.dirs == nil && r.Chance(45) {
+		prefix = c06GenSlReuse(r, m)
+	}
 	m.fill()
 	if m.dirs != nil {
 		for _, c := range m.txs {
@@ -4184,7 +4535,141 @@ func c06GenMulti(r *vh.Rng, big bool) *c06Multi {
 		}
 	}
 	m.sched = c06Interleave(r, m)
+	if prefix != nil {
+		// the favoured beginning, the rest of the commands in a random merge
+		rest := append([]int(nil), m.sched...)
+		for _, p := range prefix {
+			for i, x := range rest {
+				if x == p {
+					rest = append(rest[:i], rest[i+1:]...)
+					break
+				}
+			}
+		}
+		m.sched = append(append([]int(nil), prefix...), rest...)
+	}
 	return m
+}
+
+// c06GenSlReuse (round 10): the situation in which a state object of a check is closed while its
+// message goes on.  Check X (a real stateless check) is referenced in the global scope AND in the
+// destination block of the first recipient of transaction 0; check Y is referenced in that block
+// only, so it gets its state at that RCPT command, is shown the connection and the sender then -
+// and rejects one of them: the command is refused and checkStates closes the states of the group.
+// Transaction 0 goes on (a second recipient, DATA) and X has something to say about that; in
+// between another transaction starts (MAIL) on the same pipeline, for which X says nothing.
+// Returns the beginning of the schedule (nil: the pipeline has no room for the situation).
+func c06GenSlReuse(r *vh.Rng, m *c06Multi) []int {
+	if len(m.txs) < 2 {
+		return nil
+	}
+	a, o := m.txs[0], m.txs[1]
+	nC := len(a.scripts)
+	src := &m.srcs[a.src]
+	if len(m.global) == 0 {
+		m.global = []int{r.Intn(nC)}
+	}
+	x := m.global[r.Intn(len(m.global))]
+	y := -1
+	for j, start := 0, r.Intn(nC); j < nC; j++ {
+		k := (start + j) % nC
+		if k != x && !c06Has(m.global, k) && !c06Has(src.checks, k) {
+			y = k
+			break
+		}
+	}
+	if y < 0 {
+		return nil
+	}
+	blk := &src.blocks[a.rcpts[0].blk]
+	l := append([]int(nil), blk.checks...)
+	// the other way to the same place: a check of the block cannot create its state (backend
+	// down) - checkStates gives up in its creation loop, X (listed before it) has its state
+	down := r.Chance(50)
+	if down {
+		var rest []int
+		for _, k := range l {
+			if k != x {
+				rest = append(rest, k)
+			}
+		}
+		l = append([]int{x}, rest...)
+		blk.flaky = true
+	} else {
+		if !c06Has(l, x) {
+			l = append(l, x)
+		}
+		if !c06Has(l, y) {
+			if r.Chance(50) {
+				l = append([]int{y}, l...)
+			} else {
+				l = append(l, y)
+			}
+		}
+	}
+	blk.checks = l
+	if !c06Has(m.sl, x) {
+		m.sl = append(m.sl, x)
+		sort.Ints(m.sl)
+	}
+	none := c06V{'0', 'i'}
+	first := a.rcpts[0].id
+	// transaction 0 gets as far as the block's checks at its first RCPT command
+	for _, k := range append(append([]int(nil), m.global...), src.checks...) {
+		sc := &a.scripts[k]
+		if sc.conn.proper() != "n" && sc.conn.proper() != "i" {
+			sc.conn = none
+		}
+		if sc.sender.proper() != "n" && sc.sender.proper() != "i" {
+			sc.sender = none
+		}
+		delete(sc.rcpt, first)
+	}
+	// ... where Y refuses the connection or the sender it is shown late
+	switch {
+	case down:
+	case r.Chance(50):
+		a.scripts[y].conn = c06V{'1', 'r'}
+	default:
+		a.scripts[y].sender = c06V{'1', 'r'}
+	}
+	// a second recipient (another address)
+	second := -1
+	for i, rc := range a.rcpts {
+		if i > 0 && rc.id != first {
+			second = rc.id
+			break
+		}
+	}
+	if second < 0 {
+		second = first%3 + 1
+		a.rcpts = append(a.rcpts, c06Rcpt{id: second, blk: r.Intn(len(src.blocks))})
+	}
+	if down && len(src.blocks) > 1 {
+		// the later recipients mostly go through blocks that work
+		for i := range a.rcpts {
+			if i > 0 && a.rcpts[i].id != first && a.rcpts[i].blk == a.rcpts[0].blk && r.Chance(80) {
+				nb := (a.rcpts[i].blk + 1 + r.Intn(len(src.blocks)-1)) % len(src.blocks)
+				for j := range a.rcpts {
+					if a.rcpts[j].id == a.rcpts[i].id {
+						a.rcpts[j].blk = nb
+					}
+				}
+			}
+		}
+	}
+	// X decides about the rest of transaction 0 ...
+	switch r.Intn(3) {
+	case 0:
+		a.scripts[x].rcpt[second] = c06V{'1', 'r'}
+	case 1:
+		a.scripts[x].body = c06V{'1', 'r'}
+	default:
+		a.scripts[x].body = c06V{'1', 'q'}
+	}
+	// ... and has nothing to say about the other message
+	o.scripts[x] = c06Script{conn: none, sender: none, body: none, rcpt: map[int]c06V{}}
+	return []int{0, 0, 1}
 }
 
 // c06GenMF: failing modifiers.  Favoured: one recipient of a destination block accepted, a LATER
